@@ -39,6 +39,25 @@ check('C13', 'exhaustive enumeration of parameter tuples x all indices; explicit
       'bounded parameters (n<=7/9 etc.); the "larger random tuples" part of the quantifier is sampling and is not claimed.',
       'DESIGN.md section 4, C13')
 
+check('C21', 'exhaustive enumeration of experiments lists x factor selections x trial-index selections, stdout parsed',
+      'Every experiments list of length<=3 over two small factor pools (1-2 experiments), each of 6 factor selections (via block or factors=) '
+      'and every trial-index subset is passed to the real tabulate_experiments; the printed table is parsed and every row compared with an '
+      'independent count (frequency and percentage of the selected trials).',
+      'experiments in one list have equal length; level names without spaces.', 'DESIGN.md section 4, C21')
+
+check('C27', 'exhaustive enumeration of small CNF objects x support sizes x all scripted solver assignments (environment-answer exploration)',
+      'All clause multisets up to the bound are written by the real serialiser and read back by an independent strict DIMACS reader and by the '
+      'library parsers; the solver modules are replaced at their import seams by recording fakes that are scripted with every assignment, so '
+      'solver input, parsed output and the blocking clause of update_file (checked against all 2^support assignments) are compared exactly.',
+      'every support variable occurs in a clause (true of compiled designs); fakes mimic the pycryptosat/pyunigen/pycmsgen interface.',
+      'DESIGN.md section 4, C27')
+
+check('C28', 'exhaustive enumeration of clause sets x request lists x all assignments; three-way comparison',
+      'For every clause set / request list up to the bound the OPB text written by the real exporter is evaluated by an independent '
+      'pseudo-Boolean evaluator on all 8 assignments and compared with the arithmetic meaning and with satisfiability of the SAT encoding; '
+      'the ILP blocking constraint is checked to exclude exactly the previous solution.',
+      'Gurobi absent: the text, not a solver run, is checked; pycryptosat as SAT oracle.', 'DESIGN.md section 4, C28')
+
 
 def build():
     props = [json.loads(l) for l in (ROOT / 'properties.jsonl').read_text().splitlines() if l.strip()]
